@@ -1,5 +1,6 @@
 import OxiddModel.HashTbl.LemmasInsert
 import OxiddModel.HashTbl.LemmasRetain
+import OxiddModel.HashTbl.Ops
 
 /-!
 # C17 — the open-addressing table behaves as a set (headline theorems)
@@ -22,8 +23,10 @@ speak about membership in `t.keys` and prove `t.keys.Nodup` (`keys_nodup`), whic
 Outcomes: every operation returns `Except Err …`.  Under the invariant the only possible error
 is `Err.capacity` (`Status::check_capacity` panics: more than `2^31` slots would be needed);
 `Err.panic` (a debug assertion / underflow of the modelled code) and `Err.diverge` (a probe loop
-that never returns) are proved impossible — except after `reset_no_drop`, which the current code
-leaves with a stale `free` counter (see `reset_then_insert_panics` at the end).
+that never returns) are proved impossible for *every* history — `reset_no_drop` included, since
+it resets `free` together with the slot array (fix f20789c in /repo; before it a stale `free`
+counter let `insert, reset_no_drop, insert` index an empty slot array — see the regression
+`example` at the end).
 -/
 namespace OxiddModel.HashTbl
 open Tbl
@@ -162,6 +165,20 @@ theorem clear_spec {hf : Nat → Nat} {t : Tbl} (hinv : Inv hf t) :
   rw [h4] at this
   exact List.eq_nil_of_length_eq_zero this.symm
 
+/-- `reset_spec`: `reset_no_drop` leaves an empty table without slots that satisfies the invariant,
+from *any* state (`free` is reset together with the slot array) -/
+theorem resetNoDrop_inv (hf : Nat → Nat) (t : Tbl) : Inv hf t.resetNoDrop := by
+  apply inv_of_no_occ
+  · left; rfl
+  · rfl
+  · rfl
+  · exact Nat.zero_le _
+  · show 0 / 4 ≤ 0; decide
+
+theorem reset_spec (hf : Nat → Nat) (t : Tbl) :
+    Inv hf t.resetNoDrop ∧ t.resetNoDrop.keys = [] ∧ t.resetNoDrop.cap = 0 ∧ t.resetNoDrop.free = 0 :=
+  ⟨resetNoDrop_inv hf t, rfl, rfl, rfl⟩
+
 /-- `with_capacity` -/
 theorem withCapacity_spec (hf : Nat → Nat) (n : Nat) :
     (∃ t, Tbl.withCapacity n = .ok t ∧ Inv hf t ∧ t.keys = [] ∧ t.cap = nextCapacity n) ∨
@@ -175,91 +192,6 @@ theorem withCapacity_spec (hf : Nat → Nat) (n : Nat) :
 
 /-! ## Histories -/
 
-/-- the operations of the table (as issued by its users; `ins` is the combined insertion) -/
-inductive Op where
-  | new
-  | withCap (n : Nat)
-  | ins (k : Nat)
-  | rem (k : Nat)
-  | find (k : Nat)
-  | get (k : Nat)
-  | retain (p : Nat → Bool)
-  | drain
-  | drainTake (n : Nat)
-  | clear
-  | clearNoDrop
-  | reserve (n : Nat)
-  | clone
-  | iter
-  | intoIter
-
-/-- what an operation reports -/
-inductive Obs where
-  | unit
-  | inserted (slot : Nat)
-  | present (slot : Nat)
-  | removed (b : Bool)
-  | found (slot : Option Nat)
-  | got (v : Option Nat)
-  | keys (l : List Nat)
-  deriving DecidableEq, Repr
-
-/-- run one operation on the model (`hf` supplies the hash of a key) -/
-def apply (hf : Nat → Nat) (t : Tbl) : Op → Except Err (Tbl × Obs)
-  | .new => .ok (Tbl.new, .unit)
-  | .withCap n => match Tbl.withCapacity n with
-    | .ok t' => .ok (t', .unit)
-    | .error e => .error e
-  | .ins k => match t.insert k (hf k) with
-    | .ok (t', .isNew s) => .ok (t', .inserted s)
-    | .ok (t', .found s) => .ok (t', .present s)
-    | .error e => .error e
-  | .rem k => match t.remove k (hf k) with
-    | .ok (t', b) => .ok (t', .removed b)
-    | .error e => .error e
-  | .find k => match t.find (hf k) k with
-    | .ok o => .ok (t, .found o)
-    | .error e => .error e
-  | .get k => match t.getKey (hf k) k with
-    | .ok o => .ok (t, .got o)
-    | .error e => .error e
-  | .retain p => match t.retain p with
-    | .ok (t', d) => .ok (t', .keys d)
-    | .error e => .error e
-  | .drain => match t.drain with
-    | .ok (t', d) => .ok (t', .keys d)
-    | .error e => .error e
-  | .drainTake n => match t.drainTake n with
-    | .ok (t', d) => .ok (t', .keys d)
-    | .error e => .error e
-  | .clear => match t.clear with
-    | .ok t' => .ok (t', .unit)
-    | .error e => .error e
-  | .clearNoDrop => match t.clear with
-    | .ok t' => .ok (t', .unit)
-    | .error e => .error e
-  | .reserve n => match t.reserve n with
-    | .ok t' => .ok (t', .unit)
-    | .error e => .error e
-  | .clone => .ok (t.clone, .unit)
-  | .iter => match t.iter with
-    | .ok d => .ok (t, .keys d)
-    | .error e => .error e
-  | .intoIter => match t.intoIter with
-    | .ok d => .ok (Tbl.new, .keys d)
-    | .error e => .error e
-
-/-- run a history -/
-def run (hf : Nat → Nat) : Tbl → List Op → Except Err (Tbl × List Obs)
-  | t, [] => .ok (t, [])
-  | t, op :: ops =>
-    match apply hf t op with
-    | .error e => .error e
-    | .ok (t', o) =>
-      match run hf t' ops with
-      | .error e => .error e
-      | .ok (t'', os) => .ok (t'', o :: os)
-
 /-- the abstract set (a duplicate-free list) after one operation -/
 def absStep (S : List Nat) : Op → List Nat
   | .new => []
@@ -271,6 +203,7 @@ def absStep (S : List Nat) : Op → List Nat
   | .drainTake _ => []
   | .clear => []
   | .clearNoDrop => []
+  | .reset => []
   | .intoIter => []
   | _ => S
 
@@ -292,6 +225,7 @@ def ObsOK (S : List Nat) : Op → Obs → Prop
   | .withCap _, .unit => True
   | .clear, .unit => True
   | .clearNoDrop, .unit => True
+  | .reset, .unit => True
   | .reserve _, .unit => True
   | .clone, .unit => True
   | _, _ => False
@@ -378,6 +312,7 @@ theorem step_sim {hf : Nat → Nat} {t : Tbl} {S : List Nat} (h : Rel hf t S) (o
   | clearNoDrop =>
     obtain ⟨t', h1, h2, _, h4⟩ := clear_spec hinv
     exact .inl ⟨t', .unit, by simp [apply, h1], rel_empty h2 h4, trivial⟩
+  | reset => exact .inl ⟨_, _, rfl, rel_empty (resetNoDrop_inv hf t) rfl, trivial⟩
   | reserve n =>
     rcases reserve_spec hinv n with ⟨t', h1, h2, h3, _⟩ | ⟨h1, _⟩
     · refine .inl ⟨t', .unit, by simp [apply, h1], ⟨h2, hnd, ?_⟩, trivial⟩
@@ -406,7 +341,7 @@ theorem run_sim {hf : Nat → Nat} : ∀ (ops : List Op) (t : Tbl) (S : List Nat
     · exact .inr (by simp [run, h1])
 
 /-- **`tbl_history`**: for every hash function and every operation sequence from the empty table
-(every operation of the table except `reset_no_drop`): if the run completes, the invariant holds,
+(every operation of the table, `reset_no_drop` included): if the run completes, the invariant holds,
 the contents of the table are — as a set, each element stored once — exactly what the abstract
 set semantics prescribes, and every single answer along the way (`find`, `get`, `new`/`found` of
 an insertion, `Some`/`None` of a removal, the elements yielded by `drain`/`iter`/`into_iter`, the
@@ -438,6 +373,7 @@ def Removes : Op → Nat → Prop
   | .drainTake _, _ => True
   | .clear, _ => True
   | .clearNoDrop, _ => True
+  | .reset, _ => True
   | .intoIter, _ => True
   | _, _ => False
 
@@ -517,138 +453,7 @@ theorem tbl_contains_inserted_not_removed (hf : Nat → Nat) (ops : List Op) (t 
   simp
 
 
-/-! ## `reset_no_drop`: the stale `free` counter (defect of the modelled code)
-
-`reset_no_drop` sets `len = 0` and replaces the slot array by an empty one but leaves `free`
-untouched.  The full statement "*every* history — `reset_no_drop` included — never panics and
-never hangs" is therefore **false** of the faithful model (and of the code: the harness replays the
-witness below on the real `RawTable`, where `find_or_find_insert_slot` computes `0usize - 1` as mask
-and indexes an empty slice: a panic with debug assertions, an out-of-bounds read without):
-
-    theorem tbl_history_with_reset (hf) (ops : List OpR) (e) : runR hf Tbl.new ops = .error e → e = .capacity
-
-What is proved instead: the negation with a concrete witness (`reset_then_insert_panics`), the exact
-condition under which `reset_no_drop` keeps the invariant (`resetNoDrop_inv_iff`), the fact that a
-history may contain `reset_no_drop` wherever `free = 0` holds at that moment, e.g. directly after
-`new`, `drain`-on-zero-slots … (`tbl_history_with_reset_partial`), and that the one-line repair
-`self.free = 0` makes the invariant unconditional (`resetNoDrop_fixed_inv`). -/
-
-/-- operations including `reset_no_drop` -/
-inductive OpR where
-  | op (o : Op)
-  | reset
-
-def applyR (hf : Nat → Nat) (t : Tbl) : OpR → Except Err (Tbl × Obs)
-  | .op o => apply hf t o
-  | .reset => .ok (t.resetNoDrop, .unit)
-
-def runR (hf : Nat → Nat) : Tbl → List OpR → Except Err Tbl
-  | t, [] => .ok t
-  | t, op :: ops =>
-    match applyR hf t op with
-    | .error e => .error e
-    | .ok (t', _) => runR hf t' ops
-
 deriving instance DecidableEq for Except
-
-/-- negation of the full statement: insert, `reset_no_drop`, insert panics (identity hash) -/
-theorem reset_then_insert_panics :
-    runR (fun k => k) Tbl.new [.op (.ins 1), .reset, .op (.ins 2)] = .error .panic := by
-  decide +kernel
-
-/-- … and `reserve(n)` after `reset_no_drop` does not allocate although the table has no slots
-(the documented contract of `reserve` is broken as well) -/
-theorem reset_then_reserve_no_slots :
-    runR (fun k => k) Tbl.new [.op (.ins 1), .reset, .op (.reserve 5)]
-      = .ok { slots := #[], len := 0, free := 15 } := by
-  decide +kernel
-
-theorem resetNoDrop_inv_iff {hf : Nat → Nat} (t : Tbl) : Inv hf t.resetNoDrop ↔ t.free = 0 := by
-  constructor
-  · intro h
-    have := h.freeLe
-    simpa [resetNoDrop, countFree, countFreeL] using this
-  · intro h
-    apply inv_of_no_occ
-    · left; rfl
-    · rfl
-    · rfl
-    · show t.free ≤ _; omega
-    · show 0 / 4 ≤ t.free; omega
-
-/-- with the repair `self.free = 0` the invariant holds after `reset_no_drop` from *any* state -/
-theorem resetNoDrop_fixed_inv (hf : Nat → Nat) (t : Tbl) : Inv hf { t.resetNoDrop with free := 0 } := by
-  apply inv_of_no_occ
-  · left; rfl
-  · rfl
-  · rfl
-  · exact Nat.zero_le _
-  · show 0 / 4 ≤ 0; decide
-
-/-- histories with `reset_no_drop`: as long as every `reset_no_drop` happens in a state with
-`free = 0`, the run never panics or hangs and the invariant holds at the end -/
-theorem tbl_history_with_reset_partial (hf : Nat → Nat) : ∀ (ops : List OpR) (t : Tbl), Inv hf t →
-    (∀ pre post t1, ops = pre ++ OpR.reset :: post → runR hf t pre = .ok t1 → t1.free = 0) →
-    (∃ t', runR hf t ops = .ok t' ∧ Inv hf t') ∨ runR hf t ops = .error .capacity := by
-  intro ops
-  induction ops with
-  | nil => intro t h _; exact .inl ⟨t, rfl, h⟩
-  | cons op ops ih =>
-    intro t hinv hres
-    cases op with
-    | op o =>
-      have hrel : Rel hf t t.keys := ⟨hinv, (keys_nodup hinv).1, fun _ => Iff.rfl⟩
-      rcases step_sim hrel o with ⟨t1, ob, h1, h2, _⟩ | h1
-      · have := ih t1 h2.1 (by
-          intro pre post t2 heq hrun
-          exact hres (OpR.op o :: pre) post t2 (by rw [heq]; rfl) (by simp [runR, applyR, h1, hrun]))
-        rcases this with ⟨t', g1, g2⟩ | g1
-        · exact .inl ⟨t', by simp [runR, applyR, h1, g1], g2⟩
-        · exact .inr (by simp [runR, applyR, h1, g1])
-      · exact .inr (by simp [runR, applyR, h1])
-    | reset =>
-      have hf0 : t.free = 0 := hres [] ops t rfl rfl
-      have hinv1 : Inv hf t.resetNoDrop := (resetNoDrop_inv_iff t).2 hf0
-      have := ih t.resetNoDrop hinv1 (by
-        intro pre post t2 heq hrun
-        exact hres (OpR.reset :: pre) post t2 (by rw [heq]; rfl) (by simp [runR, applyR, hrun]))
-      rcases this with ⟨t', g1, g2⟩ | g1
-      · exact .inl ⟨t', by simp [runR, applyR, g1], g2⟩
-      · exact .inr (by simp [runR, applyR, g1])
-
-/-- the repaired `reset_no_drop` (`self.free = 0` added, patch `c17-1.diff`) -/
-def applyRF (hf : Nat → Nat) (t : Tbl) : OpR → Except Err (Tbl × Obs)
-  | .op o => apply hf t o
-  | .reset => .ok ({ t.resetNoDrop with free := 0 }, .unit)
-
-def runRF (hf : Nat → Nat) : Tbl → List OpR → Except Err Tbl
-  | t, [] => .ok t
-  | t, op :: ops =>
-    match applyRF hf t op with
-    | .error e => .error e
-    | .ok (t', _) => runRF hf t' ops
-
-/-- with the one-line repair the full statement holds: *every* history, `reset_no_drop`
-included, keeps the invariant and can only stop with the capacity check -/
-theorem tbl_history_with_reset_fixed (hf : Nat → Nat) : ∀ (ops : List OpR) (t : Tbl), Inv hf t →
-    (∃ t', runRF hf t ops = .ok t' ∧ Inv hf t') ∨ runRF hf t ops = .error .capacity := by
-  intro ops
-  induction ops with
-  | nil => intro t h; exact .inl ⟨t, rfl, h⟩
-  | cons op ops ih =>
-    intro t hinv
-    cases op with
-    | op o =>
-      have hrel : Rel hf t t.keys := ⟨hinv, (keys_nodup hinv).1, fun _ => Iff.rfl⟩
-      rcases step_sim hrel o with ⟨t1, ob, h1, h2, _⟩ | h1
-      · rcases ih t1 h2.1 with ⟨t', g1, g2⟩ | g1
-        · exact .inl ⟨t', by simp [runRF, applyRF, h1, g1], g2⟩
-        · exact .inr (by simp [runRF, applyRF, h1, g1])
-      · exact .inr (by simp [runRF, applyRF, h1])
-    | reset =>
-      rcases ih _ (resetNoDrop_fixed_inv hf t) with ⟨t', g1, g2⟩ | g1
-      · exact .inl ⟨t', by simp [runRF, applyRF, g1], g2⟩
-      · exact .inr (by simp [runRF, applyRF, g1])
 
 /-- every operation preserves the invariant (`tbl_inv`) -/
 theorem tbl_inv_preserved {hf : Nat → Nat} {t t' : Tbl} {o : Obs} (hinv : Inv hf t) (op : Op)
@@ -722,7 +527,17 @@ example : ((exT.reserve 20).map (fun t => (t.cap, t.free, t.keys))) = .ok (32, 2
 example : ∀ k, k ∈ exT.keys ↔ ∃ pre post, exOps = pre ++ Op.ins k :: post ∧ ∀ op, op ∈ post → ¬ Removes op k :=
   tbl_contains_inserted_not_removed hfConst exOps exT _ exT_run
 
--- `tbl_history_with_reset_partial`: `reset_no_drop` directly after `new` (where `free = 0`) is fine
-example : runR hfConst Tbl.new [.reset, .op (.ins 1), .op (.ins 2)] ≠ .error .panic := by decide +kernel
+/-- regression for the repaired defect (/repo f20789c): `insert, reset_no_drop, insert` — before
+the fix the second insertion found `free = 15` on a table without slots, skipped the rehash and
+panicked (`0usize - 1` as mask); now it allocates 16 slots and the history theorems cover it -/
+example : run (fun k => k) Tbl.new [.ins 1, .reset, .ins 2, .find 2, .find 1] =
+    .ok ({ slots := (Array.replicate 16 Slot.free).set! 2 (.occ 2 2), len := 1, free := 15 },
+      [.inserted 1, .unit, .inserted 2, .found (some 2), .found none]) := by
+  decide +kernel
+
+-- `reserve` after `reset_no_drop` allocates again
+example : (run (fun k => k) Tbl.new [.ins 1, .reset, .reserve 5]).map (fun r => (r.1.cap, r.1.free)) =
+    .ok (16, 16) := by
+  decide +kernel
 
 end OxiddModel.HashTbl
